@@ -66,6 +66,10 @@ MUTS3 = [
  ('R14', 'C11', 'core/src/pixelcolor/raw/mod.rs', 'Self::Storage::MAX >> (Self::Storage::BITS - $bpp);', 'Self::Storage::MAX >> (Self::Storage::BITS - $bpp + 1);', 'break', 'impl_raw_data! MASK (macro body, 7 instances): shift off by one', 0),
  ('R15', 'C11', 'core/src/pixelcolor/raw/mod.rs', 'impl_raw_data!(RawU24: u32, 24, "24 bits");', 'impl_raw_data!(RawU24: u32, 23, "24 bits");', 'break', 'an INVOCATION of impl_raw_data! changed (23 bits): the configured instance no longer is an instance of the source', 0),
  ('R16', 'C09', 'src/image/image_raw.rs', '    (width as usize * bits_per_pixel + 7) / 8', '    #[cfg(feature = "x")]\n    let width = width + 1;\n    (width as usize * bits_per_pixel + 7) / 8', 'break', 'bytes_per_row: a `#[cfg]`-gated statement is added (audit F9: must fail closed)', 0),
+ ('T1', 'C16', 'src/primitives/rectangle/mod.rs', '.is_some_and(|bottom_right| point.x <= bottom_right.x && point.y <= bottom_right.y)', '.is_some_and(|bottom_right| point.x <= bottom_right.x && point.y < bottom_right.y)', 'break', 'the TRAIT copy `impl ContainsPoint for Rectangle` (main crate): `<=` -> `<`', 0),
+ ('T2', 'C16', 'src/primitives/rectangle/mod.rs', 'self.size.saturating_add(Size::new_equal(offset as u32 * 2))', 'self.size.saturating_add(Size::new_equal(offset as u32))', 'break', 'the TRAIT copy `impl OffsetOutline for Rectangle`: dropped `* 2`', 0),
+ ('T3', 'C16', 'src/primitives/rectangle/mod.rs', 'self.top_left += by;', 'self.top_left -= by;', 'break', 'the TRAIT copy `impl Transform for Rectangle`: translate_mut `+=` -> `-=`', 0),
+ ('T4', 'C07', 'src/primitives/line/mod.rs', 'self.start += by;\n        self.end += by;', 'self.start += by;\n        self.end -= by;', 'break', 'Line::translate_mut (`-> &mut Self`): `+=` -> `-=` on the end point', 0),
  ('S1', 'C11', 'core/src/pixelcolor/raw/load_store.rs', None, None, 'preserve', 'RawU16 store: local `bytes` renamed', 0),
  ('S2', 'C14', 'src/mono_font/mod.rs', None, None, 'preserve', 'MonoFont::glyph: the independent lets char_x / char_y reordered', 0),
 ]
@@ -122,7 +126,7 @@ def main():
     for mid, prop, f, old, new, kind, what, occ in allm:
         if want and mid not in want:
             continue
-        if not want and mid[0] in 'NQRS':
+        if not want and mid[0] in 'NQRST':
             continue
         sh('git -C /repo worktree remove --force %s; git -C /repo worktree prune' % S)
         rc, o = sh('git -C /repo worktree add --detach %s HEAD' % S)
